@@ -434,3 +434,40 @@ Example C15_example_graft_reuses_name :
              leaves t' = ["l1"; "z"; "x"; "y"]%string.
 Proof. exact graft_reuse_example. Qed.
 Print Assumptions C15_example_graft_reuses_name.
+
+(** Heap level, branch bitsets (Model/HeapBits.v of C03 paired with the store of
+    Model/HeapClone.v): [rbr h t nid] lists the branch ids of the tree [t] carried by node
+    [nid]; [reindex len es rows b] = ClearBitSets on the branches [es] then UpdateBitSet
+    writing the tip bits [rows].  Re-indexing the clone leaves every bitset of the source as
+    it was, and re-indexing the source leaves every bitset of the clone as it was. *)
+From GT Require Import Model.HeapBits Model.HeapClone Proofs.HeapClone Proofs.HeapCloneBits.
+
+Theorem C15_heap_reindex_clone_source_bitsets_untouched :
+  forall t fuel h root k (b : bits),
+    repr (below k) h root None t -> k <= hnext h -> usize t <= fuel ->
+    let h' := fst (clone_h fuel h root) in
+    let r' := snd (clone_h fuel h root) in
+    let es_source := rbr h' t root in
+    let es_clone := rbr h' (clone t) r' in
+    (forall len rows b', (forall e, In e (map fst rows) -> In e es_clone) ->
+        reindex len es_clone rows b = Some b' -> forall x, In x es_source -> b' x = b x) /\
+    (forall len rows b', (forall e, In e (map fst rows) -> In e es_source) ->
+        reindex len es_source rows b = Some b' -> forall x, In x es_clone -> b' x = b x).
+Proof. exact clone_reindex_bitsets. Qed.
+Print Assumptions C15_heap_reindex_clone_source_bitsets_untouched.
+
+Example C15_example_heap_reindex_clone :
+  ex_es_source = [3; 4] /\ length ex_es_clone = 2 /\
+  (forall e, In e ex_es_clone -> ~ In e ex_es_source) /\
+  match reindex 2 ex_es_clone (map (fun e => (e, [1])) ex_es_clone) ex_bits with
+  | Some b' => map b' ex_es_source = [Some [true; false]; Some [true; false]] /\
+               map b' ex_es_clone = [Some [false; true]; Some [false; true]]
+  | None => False
+  end /\
+  match reindex 2 ex_es_source (map (fun e => (e, [1])) ex_es_source) ex_bits with
+  | Some b' => map b' ex_es_clone = [Some [true; false]; Some [true; false]] /\
+               map b' ex_es_source = [Some [false; true]; Some [false; true]]
+  | None => False
+  end.
+Proof. exact ex_reindex_clone. Qed.
+Print Assumptions C15_example_heap_reindex_clone.
